@@ -49,6 +49,22 @@ def gen_stereo_molecule(rng, n_db=None, n_chiral=None, max_extra=6, p_ring=0.0):
         el = rng.choice(['C', 'C', 'O', 'N', 'F', 'S'])
         mo = int(min(M.free(g, a), M.VAL[(el, 0)][0], 2))
         add(el, a, order=rng.choice([1, 1, mo]) if mo >= 1 else 1)
+    if rng.random() < 0.25:
+        # an aryl thioether substituent (-S-c1ccccc1): 'Sc' is the everyday pair of an aliphatic and an aromatic atom whose
+        # letters also spell an element; stereo marks written after it in the same fragment must stay on their atoms
+        cands = [n for n in g if M.free(g, n) >= 1 and n not in marked and g.nodes[n]['element'] == 'C']
+        if cands:
+            a = rng.choice(cands)
+            sn = add('S', a)
+            g.nodes[sn]['cap'] = 2
+            ring = []
+            for _ in range(6):
+                r_ = len(g)
+                g.add_node(r_, element='C', charge=0, aromatic=True, cap=4, ring=99)
+                ring.append(r_)
+            for x, y in zip(ring, ring[1:] + ring[:1]):
+                g.add_edge(x, y, order=1.5)
+            g.add_edge(sn, ring[0], order=1)
     if rng.random() < p_ring:
         # a stereo double bond inside a large ring: one of its atoms is bonded (single, unmarked bond) to a far-away
         # unmarked atom, as in C1CCCCC/C=C1/F; the slash-marked bonds stay ordinary chain bonds (checked by the caller)
